@@ -99,9 +99,14 @@ add('C13', 'proof', 'Lean 4 theorems about the graph wrapper and a verified exac
     'by graph edges) and an exact optimum minPM (= the minimum over all perfect matchings, none iff there is none) are Lean '
     'theorems for all finite graphs and rational weights. Edmonds\' algorithm inside networkx is outside /repo and is NOT '
     'modelled: on every run the real gt.mwpm output (planted random graphs, exhaustive 4-node weight classes, graphs '
-    'captured from the five MWPM decoders) is checked by the verified checker and its exact weight compared with minPM.',
-    TB + 'networkx max_weight_matching is trusted only through the per-run comparison with the verified optimum; Blossom V '
-    'C library absent (networkx backend only).')
+    'captured from the five MWPM decoders) is checked by the verified checker and its exact weight compared with minPM. '
+    'The Blossom V path (gt.mwpm dispatch, mwpm_blossom5, blossom5.mwpm / mwpm_ids, weight_to_int_fn as applied) is exercised in '
+    'child processes against a stand-in libpypm.so built by the harness (exact bitmask DP with the same C interface): node-id '
+    'mapping, ctypes conversion, mates set and integer scaling are compared with the Lean model, and optimality is judged '
+    'within the rounding allowance proved in Props/C13/Blossom.lean (scaled optimum within (n/2)/s of the true optimum, exact '
+    'when the documented rule is the identity; scaled weights fit a C int) — 19 theorems.',
+    TB + 'networkx max_weight_matching is trusted only through the per-run comparison with the verified optimum; the real Blossom V '
+    'C library is absent and unverified (a harness-built stand-in replaces it; nothing is claimed about the real library).')
 add('C17', 'proof', 'Lean 4 theorems about an inverse-CDF stream model + bit-exact prediction of every generated error and flip from a twin generator',
     'With the generator abstracted as a stream of uniforms consumed left to right: the error has 2n bits, qubit i depends on '
     'uniform i only, the preimage of each Pauli is the half-open interval between consecutive cumulative probabilities (so '
